@@ -133,3 +133,45 @@ def check_independence(pm, cname, ovo):
     finally:
         X.SIMPLEX["var"] = old
         X.SIMPLEX["on"] = False
+
+
+def cross_check_instances(pm, cname, ovo, sizes_list=((2, 2), (2, 3), (3, 2))):
+    """thorough tier: an independent route to the same two comparisons. Each side is written out separately at small sizes
+    (every sum expanded over concrete indices, on the simplex for the score) and the two expansions are compared. A
+    disagreement with the symbolic verdict means the normaliser is unsound or incomplete -> reported as an analysis error.
+    -> list of (what, ok)"""
+    from .e8_index import instantiate, on_simplex, cidx
+    res = []
+    X.SIMPLEX["on"] = False
+    out, _ = evaluate_terms(pm, cname, ovo, True)
+    score = as_scalar(out[0])
+    g = scalar(out[1])
+    m, j = "Nm", "Kj"
+    gt = subst(g.term, {"N@0": m, "K@1": j})
+    d = diff(score, "y", (m, j))
+    ok = True
+    for n_, k_ in sizes_list:
+        sz = {"N": n_, "K": k_}
+        for a in range(n_):
+            for b in range(k_):
+                env = {m: cidx("N", a), j: cidx("K", b)}
+                if not is_zero(instantiate(gt, sz, env) - instantiate(d, sz, env)):
+                    ok = False
+    res.append(("gradient = derivative at N,K in " + str(list(sizes_list)), ok))
+    X.SIMPLEX["on"] = True
+    try:
+        out2, _ = evaluate_terms(pm, cname, ovo, False)
+        sc = as_scalar(out2)
+        sf, src = spec_function(cname, ovo)
+        J = TermInterp({"y_pred": input_array("y", ["N", "K"]), "affinity": input_array("A", ["N", "N"])}, {})
+        ref = as_scalar(J.run(sf))
+    finally:
+        X.SIMPLEX["on"] = False
+    ok2 = True
+    for n_, k_ in sizes_list:
+        sz = {"N": n_, "K": k_}
+        q = on_simplex(instantiate(sc, sz, {}), sz) - on_simplex(instantiate(ref, sz, {}), sz)
+        if not is_zero(q):
+            ok2 = False
+    res.append(("score = definition on the simplex at N,K in " + str(list(sizes_list)), ok2))
+    return res
